@@ -25,7 +25,7 @@ REQUIRED_CLASSES = ['scope-valid', 'scope-nested', 'scope-repeated', 'scope-body
                     'fail:prefixed-clash', 'fail:malformed', 'fail:malformed-entry-with-new-conversion-type', 'fail:entry-admits-an-unknown-prefix', 'custom-type-unit-used-inside-scope', 'fail-after-successes', 'form:dict', 'form:quantity', 'form:prefixes', 'form:builtin-type', 'nested-scopes-share-a-conversion-class', 'overlapping-lifetimes', 'overlapping-lifetimes:class-brought-by-first', 'overlapping-lifetimes:class-brought-by-second',
                     'form:custom-type', 'dip:valid', 'dip:clash-second-unit', 'dip:unrelated-error', 'dip:expression', 'dip:add_unit',
                     'dip:nested-in-scope', 'dip:units-from-source']
-REQUIRED_MONITORS = ['scope_events', 'scope_end_digest_compares', 'failed_open_digest_compares', 'parse_digest_compares',
+REQUIRED_MONITORS = ['closed_environment_released_inside_next_scope', 'scope_events', 'scope_end_digest_compares', 'failed_open_digest_compares', 'parse_digest_compares',
                      'usable_inside_checks', 'unusable_outside_checks', 'end_of_history_compares']
 ASSUMPTIONS = ['only input-driven failures are verdicts (no asynchronous exceptions injected at arbitrary lines)',
                'wrappers are attached to the imported real classes; nothing is edited in the repository']
@@ -360,6 +360,13 @@ def run_scope(sc, ctx, st, active):
         return
     if sc['fail']:
         st['devs'].append(dev('invalid-registration-accepted', dict(units=sc['units'], fail=sc['fail'])))
+    # the last environment object that was closed is released only NOW, with the new scope open - what `env = UnitEnvironment(..)`
+    # does when one variable is re-used for repeated explicit scopes (an object that is closed must be inert)
+    if ctx.get('prev_env') is not None:
+        ctx['prev_env'] = None
+        import gc
+        gc.collect()
+        st['mon']['closed_environment_released_inside_next_scope'] = st['mon'].get('closed_environment_released_inside_next_scope', 0) + 1
     inner = active + own
     try:
         check_usable(ctx, st, inner)
@@ -380,6 +387,7 @@ def run_scope(sc, ctx, st, active):
                     pass
             else:
                 env.close()
+            ctx['prev_env'] = env
     check_unusable(ctx, st, [u['sym'] for u in own])
 
 
